@@ -40,10 +40,13 @@ func vLoadVector(path string) {
 		Vector []vVecEntry    `json:"vector"`
 		Params map[string]int `json:"params"`
 	}
-	if err := json.Unmarshal(b, &doc); err != nil {
+	dec := json.NewDecoder(bytes.NewReader(b))
+	dec.UseNumber() // 64-bit instants do not survive float64
+	if err := dec.Decode(&doc); err != nil {
 		panic(err)
 	}
 	vVector = doc.Vector
+	vHaveFirst = false
 	vParams = doc.Params
 	if vParams == nil {
 		vParams = map[string]int{}
@@ -89,8 +92,22 @@ func nondetInt(tag string) int {
 	if !ok {
 		return 0
 	}
-	f, _ := v.(float64)
-	return int(int64(f))
+	return int(vNum(v))
+}
+
+// vNum: an integer of the witness (kept as json.Number so that 64-bit values stay exact).
+func vNum(v interface{}) int64 {
+	switch x := v.(type) {
+	case json.Number:
+		if i, err := x.Int64(); err == nil {
+			return i
+		}
+		f, _ := x.Float64()
+		return int64(f)
+	case float64:
+		return int64(x)
+	}
+	return 0
 }
 
 func nondetByte(tag string) byte { return byte(nondetInt(tag)) }
@@ -100,8 +117,7 @@ func nondetRange(tag string, lo, hi int) int {
 	if !ok {
 		return lo
 	}
-	f, _ := v.(float64)
-	return int(f)
+	return int(vNum(v))
 }
 
 func nondetChoice(tag string, n int) int { return nondetRange(tag, 0, n-1) }
@@ -163,15 +179,24 @@ func vExpectPanic(f func()) (panicked bool) {
 }
 
 var vClock int64
+var (
+	vHaveFirst    bool
+	vFirst, vBase int64
+)
 
 func vNow() int64 {
 	// replay: the witness carries the instants the harness read
 	vMu.Lock()
 	if vPos < len(vVector) && vVector[vPos].Tag == "clock" {
-		f, _ := vVector[vPos].Val.(float64)
+		// the witness's clock starts at the first reading; natively that instant is "now", so that the
+		// library's own time.Now() and the harness's readings are on one time line
+		w := vNum(vVector[vPos].Val)
 		vPos++
+		if !vHaveFirst {
+			vHaveFirst, vFirst, vBase = true, w, time.Now().UnixNano()
+		}
 		vMu.Unlock()
-		return int64(f)
+		return vBase + (w - vFirst)
 	}
 	vMu.Unlock()
 	vMu.Lock()
